@@ -33,6 +33,7 @@ func logComp(k string) {
 }
 
 type loopCtx struct {
+	frameKeys []string
 	phiVals map[*ssa.Phi]Term
 	variant []Term
 	st      *State
@@ -46,6 +47,10 @@ func (fx *FX) trialRun(fr *frame, li *loopInfo, st *State) *writeLog {
 	n0, m0, c0 := len(fx.items), len(fx.obs), map[string]int{}
 	for k, v := range fx.obCount {
 		c0[k] = v
+	}
+	savedEpoch := map[string]Term{}
+	for k, v := range fx.epochConsts {
+		savedEpoch[k] = v
 	}
 	savedVals := map[ssa.Value]Val{}
 	for k, v := range fr.vals {
@@ -61,6 +66,7 @@ func (fx *FX) trialRun(fr *frame, li *loopInfo, st *State) *writeLog {
 	fx.items = fx.items[:n0]
 	fx.obs = fx.obs[:m0]
 	fx.obCount = c0
+	fx.epochConsts = savedEpoch
 	fr.vals = savedVals
 	return log
 }
@@ -193,6 +199,7 @@ func (fx *FX) enterLoop(fr *frame, li *loopInfo, b *ssa.BasicBlock, ins []*State
 		t.Signed = old.T.Signed
 		fr.vals[phi] = Val{T: t, Typ: phi.Type()}
 		lc.phiVals[phi] = t
+		fx.assumeWF(st, t, phi.Type())
 	}
 	loopCtxs[b] = lc
 	env2 := fx.newEnv(fr, st)
@@ -202,6 +209,10 @@ func (fx *FX) enterLoop(fr *frame, li *loopInfo, b *ssa.BasicBlock, ins []*State
 	}
 	for _, ai := range autoInv {
 		fx.assume(st.reach, ai(fr))
+	}
+	lc.frameKeys = fx.frameKeys(log)
+	for _, k := range lc.frameKeys {
+		fx.assume(st.reach, fx.frameFact(st, k))
 	}
 	for _, cl := range fx.loopClauses(fr, li, "decreases") {
 		v := fx.evalExpr(env2, cl.Expr)
@@ -272,6 +283,27 @@ func (fx *FX) closeLoop(fr *frame, li *loopInfo, from *ssa.BasicBlock, st *State
 	}
 	for _, ai := range fx.autoInvariants(fr, b) {
 		fx.oblige(st, "inv-keep", fmt.Sprintf("%s.keep.rangeindex", label), "rangeindex >= -1", ai(fr), b.Instrs[0].Pos(), nil)
+	}
+	if steps := fx.loopClauses(fr, li, "step"); len(steps) > 0 {
+		env.preNames = map[string]Val{}
+		for phi, v := range saved {
+			if phi.Comment == "rangeindex" {
+				one := BVLit(1, bvWidth(v.T.Sort))
+				t := bvbin("bvadd", v.T, one)
+				t.Signed = true
+				env.preNames["$i"] = Val{T: t, Typ: phi.Type()}
+			} else if phi.Comment != "" {
+				env.preNames[phi.Comment] = v
+			}
+		}
+		env.preState = lc.st
+		for j, cl := range steps {
+			g := fx.evalBool(env, cl.Expr)
+			fx.oblige(st, "inv-keep", fmt.Sprintf("%s.step#%d%s", label, j+1, lbl(cl)), cl.Text, g, from.Instrs[len(from.Instrs)-1].Pos(), cl.Props)
+		}
+	}
+	for _, k := range lc.frameKeys {
+		fx.oblige(st, "inv-keep", fmt.Sprintf("%s.keep.frame(%s)", label, k), "loop leaves pre-existing objects of "+k+" unchanged", fx.frameFact(st, k), b.Instrs[0].Pos(), nil)
 	}
 	for j, cl := range fx.loopClauses(fr, li, "decreases") {
 		nv := fx.evalExpr(env, cl.Expr)
@@ -433,4 +465,40 @@ func freeVarReadOnly(fv *ssa.FreeVar) bool {
 
 func describeAlloc(a *ssa.Alloc) string {
 	return strings.TrimSpace(a.Comment)
+}
+
+// frameKeys: components a loop writes that the function's frame clause does not allow it to change
+// on pre-existing objects; an automatic invariant carries "unchanged below the entry allocation mark".
+func (fx *FX) frameKeys(log *writeLog) []string {
+	c := fx.c
+	if c == nil || !c.HasMod || log.all || fx.oldState == nil || len(fx.inlineStack) > 0 {
+		return nil
+	}
+	allowed := map[string]bool{"$alloc": true}
+	for _, m := range c.Modifies {
+		if m == "*" {
+			return nil
+		}
+		for _, k := range fx.expandCompName(m) {
+			allowed[k] = true
+		}
+	}
+	var out []string
+	for k := range log.comps {
+		if !allowed[k] && (strings.HasPrefix(k, "M:") || strings.HasPrefix(k, "H:") || strings.HasPrefix(k, "B:")) {
+			out = append(out, k)
+		}
+	}
+	sort.Strings(out)
+	return out
+}
+
+func (fx *FX) frameFact(st *State, k string) Term {
+	alloc0 := fx.comp(fx.oldState, "$alloc", SInt)
+	e0 := fx.comp(fx.oldState, k, fx.compSorts[k])
+	e1 := fx.comp(st, k, fx.compSorts[k])
+	if e0.S == e1.S {
+		return True
+	}
+	return T(fmt.Sprintf("(forall ((q_r Int)) (=> (and (<= 0 q_r) (< q_r %s)) (= (select %s q_r) (select %s q_r))))", alloc0.S, e1.S, e0.S), SBool)
 }
